@@ -11,6 +11,7 @@ import (
 	"sync"
 
 	"github.com/brimdata/super/lake"
+	"github.com/brimdata/super/lake/journal"
 	lakeapi "github.com/brimdata/super/lake/api"
 	"github.com/segmentio/ksuid"
 	"go.uber.org/zap"
@@ -239,15 +240,23 @@ func pathClass(op StorageOp) string {
 	return op.Kind + ":other"
 }
 
-var lastCrashClass string
 var traceCases []string
-var curTrace *JournalTrace
 
-func runWithCrash(w *world, op crashOp, k int) (*MemEngine, int, error) {
+// crashRun is what one (operation, crash point) run leaves behind.
+type crashRun struct {
+	eng    *MemEngine
+	total  int
+	err    error
+	during string        // class of the storage call the crash fell on
+	trace  *JournalTrace // storage events on the pool's branch journal (atomic engine only)
+}
+
+func runWithCrash(w *world, op crashOp, k int) crashRun {
 	eng := w.eng.Clone()
 	var mu sync.Mutex
 	n, crashed := 0, false
-	lastCrashClass = ""
+	lastCrashClass := ""
+	var curTrace *JournalTrace
 	v := eng.View(func(sop StorageOp) error {
 		mu.Lock()
 		defer mu.Unlock()
@@ -261,11 +270,9 @@ func runWithCrash(w *world, op crashOp, k int) (*MemEngine, int, error) {
 		}
 		return nil
 	})
-	env, err := OpenLakeEnv(eng.View(nil))
-	if err != nil {
-		return eng, 0, err
+	if _, err := OpenLakeEnv(eng.View(nil)); err != nil {
+		return crashRun{eng: eng, err: err}
 	}
-	_ = env
 	// a handle whose traffic is counted / crashed
 	if !eng.FileMode && k > 0 {
 		curTrace = NewJournalTrace(eng, fmt.Sprintf("%s/%s/branches", LakeURI().Path, w.poolID))
@@ -274,43 +281,35 @@ func runWithCrash(w *world, op crashOp, k int) (*MemEngine, int, error) {
 	} else {
 		curTrace = nil
 	}
-	head0 := 0
-	if curTrace != nil {
-		head0 = curTrace.Head0(eng)
-	}
-	_ = head0
 	root, err := lake.Open(context.Background(), v, zap.NewNop(), LakeURI())
 	if err != nil {
-		return eng, n, err
+		return crashRun{eng: eng, total: n, err: err}
 	}
+	mu.Lock()
 	n = 0
+	mu.Unlock()
 	cenv := &LakeEnv{Eng: v, Root: root, API: lakeapi.FromRoot(root), URI: LakeURI()}
 	err = Safely(func() error { return op.run(cenv, w) })
 	mu.Lock()
 	crashed = true // the process is dead: stray goroutines must not write any more
-	total := n
+	total, during := n, lastCrashClass
 	mu.Unlock()
-	return eng, total, err
+	return crashRun{eng: eng, total: total, err: err, during: during, trace: curTrace}
 }
 
-func followUp(eng *MemEngine, w *world, after view, post view) []string {
-	var problems []string
+// followUp runs follow-up operations on the crashed storage through a fresh
+// handle; it returns the problems and, on the atomic engine, the trace case.
+func followUp(eng *MemEngine, tr *JournalTrace, w *world, after view, post view) (problems []string, traceCase string) {
 	fv := eng.View(nil)
-	tr := curTrace
-	head0 := 0
 	if tr != nil {
 		fv.Done = tr.Recorder(1)
-		// the trace starts at the pre-state: its head0/len0 were taken before the crashed run
-		head0 = tr.Len0
-		defer func() {
-			if len(traceCases) < 600 {
-				traceCases = append(traceCases, tr.Case(head0))
-			}
-		}()
+		// the trace starts at the pre-state: its len0 was taken before the crashed run
+		head0 := tr.Len0
+		defer func() { traceCase = tr.Case(head0) }()
 	}
 	env, err := OpenLakeEnv(fv)
 	if err != nil {
-		return []string{"reopen: " + err.Error()}
+		return []string{"reopen: " + err.Error()}, ""
 	}
 	for _, b := range after.branches {
 		if !strings.HasPrefix(b, "p@") {
@@ -341,7 +340,7 @@ func followUp(eng *MemEngine, w *world, after view, post view) []string {
 			}
 		}
 	}
-	return problems
+	return problems, ""
 }
 
 func sameView(a, b view) bool { return a.String() == b.String() }
@@ -356,65 +355,116 @@ func crashCampaign(res *Result, fileMode bool, opFilter func(string) bool, sampl
 	if fileMode {
 		mode = "file"
 	}
+	// The crash points are independent (each works on its own clone of the
+	// storage), so they run in a pool of workers: a torn journal HEAD costs the
+	// real readID about ten seconds of back-off per read, all of it sleeping.
+	type point struct {
+		op    crashOp
+		k     int
+		total int
+		post  view
+	}
+	type outcome struct {
+		during    string
+		fails     []Failure
+		rep       map[string]any
+		traceCase string
+	}
+	var points []point
 	for _, op := range ops() {
 		if opFilter != nil && !opFilter(op.name) {
 			continue
 		}
-		engPost, total, err := runWithCrash(w, op, 0)
-		if err != nil {
-			return fmt.Errorf("fault-free %s: %w", op.name, err)
+		r0 := runWithCrash(w, op, 0)
+		if r0.err != nil {
+			return fmt.Errorf("fault-free %s: %w", op.name, r0.err)
 		}
-		post := observe(engPost.Clone())
-		res.CountN("storage_ops_"+op.name+"_"+mode, total)
-		for _, k := range sample(total) {
-			eng, _, operr := runWithCrash(w, op, k)
-			during := lastCrashClass
-			res.Count("crash_during_" + during)
-			res.Evaluations++
-			res.Count("crash_points_" + mode)
-			res.Distinctly(fmt.Sprintf("%s:%s:%d", mode, op.name, k))
-			after := observe(eng.Clone())
-			rep := map[string]any{"mode": mode, "op": op.name, "crash_at_storage_op": k, "crashed_call": during, "of": total, "op_error": fmt.Sprint(operr), "pre": pre.String(), "post": post.String(), "after": after.String()}
-			fail := func(sig, detail, exp, got string) {
-				res.Fail(Failure{Kind: "oracle", Sig: "C17:" + mode + ":" + sig + ":during=" + during, Detail: fmt.Sprintf("[%s engine] %s, crash at storage operation %d/%d (the failing call: %s): %s", mode, op.name, k, total, during, detail), Replay: rep, Expected: exp, Observed: got})
-			}
-			if operr == nil {
-				// the operation was acknowledged before the crash point took effect: its result must be durable
-				if !sameView(after, post) {
-					fail("acked-not-durable:"+op.name, "the operation returned success but its effect is not (fully) there after reopening", post.String(), after.String())
-				}
-			}
-			if after.openErr != "" {
-				fail("lake-unopenable:"+op.name, "the lake cannot be reopened: "+after.openErr, "opens", after.openErr)
-				continue
-			}
-			bad := false
-			for _, p := range after.pools {
-				if strings.HasPrefix(p, "ERR") {
-					fail("pools-unreadable:"+op.name, "pool list unreadable: "+p, "readable", p)
-					bad = true
-				}
-			}
-			for _, b := range after.branches {
-				if strings.Contains(b, ":ERR:") {
-					fail("branches-unreadable:"+op.name, "branch list unreadable: "+b, "readable", b)
-					bad = true
-				}
-			}
-			for b, c := range after.contents {
-				if len(c) == 1 && strings.HasPrefix(c[0], "ERR:") {
-					fail("branch-unreadable:"+op.name, "branch "+b+" unreadable: "+c[0], "readable", c[0])
-					bad = true
-				}
-			}
-			if !bad && !sameView(after, pre) && !sameView(after, post) {
-				fail("not-atomic:"+op.name, "the state after reopening is neither the state before the operation nor the state after it", "pre or post", after.String())
-			}
-			for _, p := range followUp(eng, w, after, post) {
-				fail("followup-fails:"+op.name, p, "subsequent operations succeed", p)
-			}
-			res.Sample(rep)
+		post := observe(r0.eng.Clone())
+		res.CountN("storage_ops_"+op.name+"_"+mode, r0.total)
+		for _, k := range sample(r0.total) {
+			points = append(points, point{op, k, r0.total, post})
 		}
+	}
+	outs := make([]outcome, len(points))
+	one := func(pt point) (out outcome) {
+		op, k, total, post := pt.op, pt.k, pt.total, pt.post
+		cr := runWithCrash(w, op, k)
+		eng, operr, during := cr.eng, cr.err, cr.during
+		out.during = during
+		after := observe(eng.Clone())
+		rep := map[string]any{"mode": mode, "op": op.name, "crash_at_storage_op": k, "crashed_call": during, "of": total, "op_error": fmt.Sprint(operr), "pre": pre.String(), "post": post.String(), "after": after.String()}
+		out.rep = rep
+		fail := func(sig, detail, exp, got string) {
+			out.fails = append(out.fails, Failure{Kind: "oracle", Sig: "C17:" + mode + ":" + sig + ":during=" + during, Detail: fmt.Sprintf("[%s engine] %s, crash at storage operation %d/%d (the failing call: %s): %s", mode, op.name, k, total, during, detail), Replay: rep, Expected: exp, Observed: got})
+		}
+		if operr == nil {
+			// the operation was acknowledged before the crash point took effect: its result must be durable
+			if !sameView(after, post) {
+				fail("acked-not-durable:"+op.name, "the operation returned success but its effect is not (fully) there after reopening", post.String(), after.String())
+			}
+		}
+		if after.openErr != "" {
+			fail("lake-unopenable:"+op.name, "the lake cannot be reopened: "+after.openErr, "opens", after.openErr)
+			return
+		}
+		bad := false
+		for _, p := range after.pools {
+			if strings.HasPrefix(p, "ERR") {
+				fail("pools-unreadable:"+op.name, "pool list unreadable: "+p, "readable", p)
+				bad = true
+			}
+		}
+		for _, b := range after.branches {
+			if strings.Contains(b, ":ERR:") {
+				fail("branches-unreadable:"+op.name, "branch list unreadable: "+b, "readable", b)
+				bad = true
+			}
+		}
+		for b, c := range after.contents {
+			if len(c) == 1 && strings.HasPrefix(c[0], "ERR:") {
+				fail("branch-unreadable:"+op.name, "branch "+b+" unreadable: "+c[0], "readable", c[0])
+				bad = true
+			}
+		}
+		if !bad && !sameView(after, pre) && !sameView(after, post) {
+			fail("not-atomic:"+op.name, "the state after reopening is neither the state before the operation nor the state after it", "pre or post", after.String())
+		}
+		problems, tc := followUp(eng, cr.trace, w, after, post)
+		for _, p := range problems {
+			fail("followup-fails:"+op.name, p, "subsequent operations succeed", p)
+		}
+		out.traceCase = tc
+		return
+	}
+	var wg sync.WaitGroup
+	next := make(chan int)
+	for wk := 0; wk < 256 && wk < len(points); wk++ {
+		wg.Add(1)
+		go func() {
+			defer wg.Done()
+			for i := range next {
+				outs[i] = one(points[i])
+			}
+		}()
+	}
+	for i := range points {
+		next <- i
+	}
+	close(next)
+	wg.Wait()
+	for i, pt := range points {
+		out := outs[i]
+		res.Count("crash_during_" + out.during)
+		res.Evaluations++
+		res.Count("crash_points_" + mode)
+		res.Distinctly(fmt.Sprintf("%s:%s:%d", mode, pt.op.name, pt.k))
+		for _, f := range out.fails {
+			res.Fail(f)
+		}
+		if out.traceCase != "" && len(traceCases) < 600 {
+			traceCases = append(traceCases, out.traceCase)
+		}
+		res.Sample(out.rep)
 	}
 	return nil
 }
@@ -500,9 +550,26 @@ func realFileEngine(res *Result, workdir string) error {
 
 func c17(o Opts) error {
 	res := NewResult("C17")
+	// The real file engine and the ReadHead cases run with the real back-off
+	// constants (concurrently: they mostly sleep); the crash campaigns, which
+	// read torn HEADs hundreds of times, run with one retry (verif-tag hook).
+	var heads []string
+	var headsErr error
+	var hwg sync.WaitGroup
+	hwg.Add(1)
+	go func() {
+		defer hwg.Done()
+		heads, headsErr = headCases()
+	}()
 	if err := realFileEngine(res, o.Out); err != nil {
 		return err
 	}
+	hwg.Wait()
+	if headsErr != nil {
+		return headsErr
+	}
+	res.CountN("readhead_cases", len(heads))
+	journal.MaxReadRetry = 1
 	all := func(n int) []int {
 		var ks []int
 		for i := 1; i <= n; i++ {
@@ -542,9 +609,11 @@ func c17(o Opts) error {
 	}
 	res.Rule = "for each of 15 operation kinds (load, delete, delete-where, compact with/without vectors, merge, revert, vector add, pool create/rename/remove, branch create/remove, vacuum) on a fixed pre-history: a crash (this and every later storage call fail) at EVERY storage operation of the operation, for an engine with atomic puts and for the file engine's create-then-fill puts (crash between create and write, and after each write call); then reopen with cold caches and check: opens, every pool and branch readable, state = before or after (atomic), acknowledged => durable, follow-up loads / delete / pool create succeed"
 	var sb strings.Builder
-	sb.WriteString("From ZV Require Import Base.Prelude Model.Journal Model.JournalCases.\n")
+	sb.WriteString("From ZV Require Import Base.Prelude Model.Journal Model.JournalCases Model.FilePut Model.FilePutCases.\n")
 	WriteCoqList(&sb, "trace_cases", "trace_case", traceCases)
-	sb.WriteString("Definition M := Eval vm_compute in (trace_mismatches 0 trace_cases).\nPrint M.\n")
+	WriteCoqList(&sb, "head_cases", "head_case", heads)
+	sb.WriteString("Definition M := Eval vm_compute in (trace_mismatches 0 trace_cases, head_mismatches 0 head_cases).\nPrint M.\n")
+	res.ModelCases += len(heads)
 	for _, tc := range traceCases {
 		res.ModelCases += strings.Count(tc, "%N")
 	}
